@@ -65,6 +65,15 @@ def rule_queues(ctx):
             ctx.ob("C13.2", "next re-checks the queue after every wake, FIFO:%s" % nb.root, ok,
                    "pops=%s waits=%s" % ([c.name.rsplit("::", 1)[-1] for c in pops], len(waits)), site=nb.loc(),
                    key="C13.2:recheck:%s" % nb.root)
+            # check-before-wait: every call of `next` looks at the queue before it can wait (a wake-up consumed by a
+            # `next` future that is dropped afterwards must not be the only way to learn about a queued item)
+            pop_bbs = {c.bb for c in pops}
+            for w in waits:
+                ctx.ob("C13.2", "next checks the queue before it waits:%s" % nb.root,
+                       bool(pop_bbs) and w.bb not in nb.reachable(0, avoid=pop_bbs),
+                       "`%s` can reach notified().await without having popped/checked the queue in this call: a consumed "
+                       "wake-up is lost when the future is dropped, and a later `next` waits although an output is queued"
+                       % nb.root, site=w.loc(), key="C13.2:check-before-wait:%s" % nb.root)
             others = [c for c in sem_calls(b) if c.name.startswith("alloc::collections::vec_deque::VecDeque::")
                       and c.name.rsplit("::", 1)[-1] in ("push_front", "insert", "pop_back", "pop_front", "clear", "retain")]
             ctx.ob("C13.2", "queue only grows at the back in process:%s" % b.root, not others, "%s" % others, site=b.loc())
